@@ -561,3 +561,29 @@ def attach(res, texts, label, audit=True, charset=None, with_ack=True, limit=Non
     for (i, cls, detail) in dis[:20]:
         res.broke('correspondence:Document.validateDoc:' + cls, '%s document %d: %s' % (label, i, str(detail)[:400]))
     res.notes['end_to_end'][label]['disagreements'] = len(dis)
+
+
+def small_corpus(seed, n, faulty=0.4):
+    """a quick, seeded sample of ASCII documents for the end-to-end ties inside the per-property checks:
+    generated documents of random indexed maps, some with injected faults (c12.inject) or structural mutations (c02.mutants)"""
+    from . import gendoc, c12, c02
+    rnd = random.Random(seed * 2654435761 % (1 << 31) + 5)
+    entries = gendoc.index_entries()
+    out = []
+    while len(out) < n:
+        m = rnd.choice(entries)
+        g = gendoc.Gen(m['map_file'], m['icvn'], m['vriic'], m['fic'], seed=rnd.randrange(1 << 30), p_opt=rnd.choice((0.0, 0.3, 0.6)),
+                       max_rep=rnd.choice((1, 2)), tspc=m.get('tspc'))
+        text = g.doc()
+        if len(text) > 20000:
+            continue
+        r = rnd.random()
+        if r < faulty / 2:
+            text, _ = c12.inject(text, rnd)
+        elif r < faulty:
+            ms = c02.mutants(text, rnd, 1)
+            if ms:
+                text = ms[0][0]
+        if all(ord(ch) < 128 for ch in text):
+            out.append((m['map_file'], text))
+    return out
